@@ -1,7 +1,7 @@
 #!/bin/bash
 # tools/sweep.sh <tier> <seed>... : runs every check on the current tree, prints one line per check
 TIER="$1"; shift
-cd /verif
+cd "$(dirname "$0")/.." || exit 2
 for S in "$@"; do
   for ID in C01 C02 C03 C04 C05 C06 C07 C08 C09 C10 C11 C12 C13 C14 C15 C16 C17 C18 C19 C20; do
     OUT=$(VERIF_SEED=$S VERIF_NO_EVIDENCE=1 ./run_check.sh $ID $TIER 2>&1); RC=$?
